@@ -15,6 +15,10 @@ import (
 // the prelude (datatypes, uninterpreted model functions, type tags), the
 // script, and the registries that give Go types their SMT image.
 type World struct {
+	sortSeq int
+
+	toReal, toContract map[string]string // contract names <-> names in the code (top function)
+
 	l              *Loaded
 	specs          *Specs
 	sc             *Script
@@ -910,4 +914,35 @@ func (w *World) oblige(kind, label string, cond, goal Term, star bool, props []s
 	}
 	w.obls = append(w.obls, o)
 	return o
+}
+
+// bindName makes the contract's name cname stand for the parameter or local
+// called real in the function under verification.
+func (w *World) bindName(cname, real string) {
+	if w.toReal == nil {
+		w.toReal = map[string]string{}
+		w.toContract = map[string]string{}
+	}
+	w.toReal[cname] = real
+	w.toContract[real] = cname
+}
+
+func (w *World) realNameOf(cname string) string {
+	if r, ok := w.toReal[cname]; ok {
+		return r
+	}
+	if _, taken := w.toContract[cname]; taken {
+		return "\x00shadowed:" + cname // the code's name now means something else to the contract
+	}
+	return cname
+}
+
+func (w *World) contractNameOf(real string) string {
+	if c, ok := w.toContract[real]; ok {
+		return c
+	}
+	if _, taken := w.toReal[real]; taken {
+		return "\x00shadowed:" + real
+	}
+	return real
 }
